@@ -427,6 +427,46 @@ example : (sdfCfg (netPinLine demoNet demoNames demoPinIdx) (netIcLine demoNet d
     ⟨"u1/ZN", "u2/A1", [[some 250, some 375, some 500]]⟩ 6 2 false true demo.cap (by decide +kernel) (by decide +kernel)
     (by decide +kernel) (by decide +kernel) (by decide +kernel) (by decide) (by decide +kernel)
 
+/-- `(posedge A2)` names input polarity 0 of line 9 only: the coordinates with input polarity 1 are named by no entry -/
+example : (sdfCfg demoPins demoIc (parse .merge demoB) 0 demo.cap).delay 9 true false = 0 :=
+  sdf_other_lines_zero demoPins demoIc _ 9 0 true false demo.cap (by decide +kernel) (by decide +kernel)
+
+/-- line 10 (fork `z` → output port): its reader is the port cell, for which the library has no pin, and it is no fork -/
+example : (sdfCfg (netPinLine demoNet demoNames demoPinIdx) (netIcLine demoNet demoNames demoPinIdx) (parse .merge demoB) 0
+    demo.cap).delay 10 false true = 0 := by
+  apply sdf_untabled_lines_zero_net
+  · intro c p h
+    obtain ⟨i, k, _, _, _, hk, _, hr, _⟩ := netPinLine_spec demo_hyps.1 h
+    have hi : i = 8 := by rw [← hr]; decide +kernel
+    subst hi
+    have : (demoNet.node 8).kind = "output" := by decide +kernel
+    rw [this] at hk
+    simp [demoPinIdx] at hk
+  · intro c1 p1 c2 p2 h
+    have := (netIcLine_reader_fork demo_hyps.1 h).2
+    revert this
+    decide +kernel
+
+example : ∀ l ip op, 0 ≤ (sdfCfg demoPins demoIc (parse .merge demoB) 2 demo.cap).delay l ip op :=
+  sdf_delays_nonneg .merge demoPins demoIc demoB demoB_ok.2.2 2 demo.cap
+
+/-- the window equation of the NAND row of the demo: window of line 1 = hull of (window of line 7 + [2000, 2000]) and
+(window of line 9 + [0, 1750]) -/
+example (win : Nat → Win) :
+    let W := execG (staSem (wcfg demo demoDelay)) (waveProg demo) win
+    W 1 = Win.hull (Win.hull ((W 7).shift 2000 2000) ((W 9).shift 0 1750)) (Win.hull ((W 11).shift 0 0) ((W 11).shift 0 0)) := by
+  intro W
+  have key := sta_window_equations Gen.kindPrefixes demoNet demoOrder false (fun _ => 16) 4 false demo rfl demo_hyps.1
+    demo_hyps.2.1 (fun h => by cases h) demo_hyps.2.2.2 (wcfg demo demoDelay) win ⟨30583, 1, 7, 9, 11, 11⟩ (by decide +kernel)
+    (by decide +kernel)
+  have h7 : lineDmin demoDelay 7 = 2000 ∧ lineDmax demoDelay 7 = 2000 ∧ lineDmin demoDelay 9 = 0 ∧ lineDmax demoDelay 9 = 1750
+      ∧ lineDmin demoDelay 11 = 0 ∧ lineDmax demoDelay 11 = 0 := by decide +kernel
+  have hs : ∀ x, demo.src x = x := fun x => by
+    show (simopsMap Gen.kindPrefixes demoNet demoOrder false (fun _ => 16) 4 false).src x = x
+    rw [simopsMap_src, viaStem_false]
+  have hd : (wcfg demo demoDelay).delay = demoDelay := rfl
+  simp only [hs, hd, h7.1, h7.2.1, h7.2.2.1, h7.2.2.2.1, h7.2.2.2.2.1, h7.2.2.2.2.2] at key
+  exact key
 /-- the delays read from the TEXT are the demo's delay table -/
 theorem demo_text_delay : textDelay demoPins demoIc demoText 0 = some demoDelay :=
   (sdf_text_delays demoPins demoIc demoB demoB_ok.1 demoB_ok.2.1 0).2
